@@ -211,6 +211,7 @@ var _ raftpb.Entry
 //@ func (*storage/wal.badgerWAL).deleteEntriesFromIndex
 //@ props C06
 //@ safety UNCLAIMED
+//@ ghost from uint64 = fromIdx
 //@ ghost prefix []byte = nil
 //@ ghost skKey []byte = nil
 //@ ghost skIdx uint64 = 0
@@ -231,7 +232,7 @@ var _ raftpb.Entry
 //@ set skIdx = $arg1
 //@ end
 //@ at call Iterator).Seek
-//@ requires [C06 scan-starts-at-the-given-index] opened == 1 && $arg1 == skKey && skIdx == *fromIdx && positioned == 0
+//@ requires [C06 scan-starts-at-the-given-index] opened == 1 && $arg1 == skKey && skIdx == from && positioned == 0
 //@ set positioned = 1
 //@ end
 //@ at call Iterator).Valid
@@ -400,6 +401,9 @@ var _ raftpb.Entry
 //@ func (*storage/wal.badgerWAL).seekEntry
 //@ props C06 C03
 //@ safety UNCLAIMED
+//@ ghost rev bool = reverse
+//@ ghost want uint64 = seekTo
+//@ ghost dst *raftpb.Entry = entry
 //@ ghost prefix []byte = nil
 //@ ghost skKey []byte = nil
 //@ ghost skIdx uint64 = 0
@@ -415,7 +419,7 @@ var _ raftpb.Entry
 //@ set prefix = $ret0
 //@ end
 //@ at call Txn).NewIterator
-//@ requires [C06 C03 scan-bounded-by-this-groups-prefix] $arg1.Prefix == prefix && $arg1.Reverse == *reverse && opened == 0
+//@ requires [C06 C03 scan-bounded-by-this-groups-prefix] $arg1.Prefix == prefix && $arg1.Reverse == rev && opened == 0
 //@ set opened = 1
 //@ end
 //@ at call badgerWAL).entryKey
@@ -423,7 +427,7 @@ var _ raftpb.Entry
 //@ set skIdx = $arg1
 //@ end
 //@ at call Iterator).Seek
-//@ requires [C06 C03 positioned-at-the-asked-index] opened == 1 && $arg1 == skKey && skIdx == *seekTo && positioned == 0
+//@ requires [C06 C03 positioned-at-the-asked-index] opened == 1 && $arg1 == skKey && skIdx == want && positioned == 0
 //@ set positioned = 1
 //@ end
 //@ at call Iterator).Valid
@@ -439,7 +443,7 @@ var _ raftpb.Entry
 //@ set parsed = 1
 //@ end
 //@ at call Entry).Unmarshal
-//@ requires [C06 C03 decodes-into-the-callers-entry] $arg0 == *entry && *entry != nil && parsed == 1
+//@ requires [C06 C03 decodes-into-the-callers-entry] $arg0 == dst && dst != nil && parsed == 1
 //@ set decoded = 1
 //@ set decErr = $ret0
 //@ end
